@@ -245,10 +245,14 @@ func c11WriteLock(c *Ctx) {
 					recv = call.Common().Args[0]
 				}
 				base := ""
+				var obj ssa.Value
 				if a := loadAddr(recv); a != nil {
 					base, _ = an.BasePath(a)
+					if fa, ok := a.(*ssa.FieldAddr); ok {
+						obj = fa.X
+					}
 				}
-				held := base != "" && an.HeldFor(lsOf(in), base, "mu")
+				held := base != "" && an.HeldFor(lsOf(in), base, "mu") || an.HeldViaWrapper(fn, obj, "mu")
 				c.R.Check(held, shortFn(topFn(fn))+"/frame-write", c.ipos(in), "mu held", "a websocket frame is written without holding mu: concurrent writers (keep-alive, responses, close) interleave on the connection, which gorilla/websocket forbids")
 			}
 		}
